@@ -159,6 +159,19 @@ static int deq (svalue_t *a, svalue_t *b, int depth) {
             memcpy (why, keep, sizeof keep);
           }
         if (!found) { snprintf (why, sizeof why, "mapping key %.80s is gone", hx_canon_s (&n->values[0])); return 0; }
+        /* walking the buckets is not enough: the restored mapping must answer a lookup of the key, the way LPC's m[k]
+           does (int and string keys hash by value; floats are compared at the printed precision above only) */
+        if (n->values[0].type == T_NUMBER || n->values[0].type == T_STRING) {
+          svalue_t k; assign_svalue_no_free (&k, &n->values[0]);
+          svalue_t *hit = find_in_mapping (mb, &k);
+          int ok = hit && hit != &const0u && deq (&n->values[1], hit, depth + 1);
+          if (!ok) {
+            snprintf (why, sizeof why, "mapping key %.60s is listed in the restored mapping (%d pairs) but a lookup of it gives %.40s", hx_canon_s (&n->values[0]), mb->count, hit ? hx_canon_s (hit) : "NULL");
+            free_svalue (&k, "c16");
+            return 0;
+          }
+          free_svalue (&k, "c16");
+        }
       }
     return 1;
   }
@@ -848,6 +861,204 @@ static void names_elem (long idx) {
   vx_count (0, 1);
 }
 
+/* ------------------------------------------------------------------ mapkeys: mappings that fill and outgrow the table they
+ * are restored into.  Integer keys 16*h hash to h (MAP_POINTER_HASH = x >> 4); the table for n pairs has 8 buckets up to
+ * 8 pairs, 16 up to 15, 32 up to 31, and doubles when 80% of the buckets are in use.
+ *   level 8 : every non-empty subset of the hashes 0..15 (65 535 mappings; up to 8 pairs use the 8-bucket table, more the
+ *             16-bucket one), alone, inside an array and as a mapping value
+ *   level 16: every choice of 12..15 of the 16 buckets, one pair per bucket, x which pairs carry the next hash bit
+ *             {none, all, even, odd, only the j-th, all but the j-th}
+ *   level 32: 25..31 of the 32 buckets (unused ones = start + j*step, step in {1,3,5,7,11}), same bit choices
+ *   strings : n string keys, n = 1..40
+ * Oracle: the round trip oracle (every key found by lookup). */
+static int popcount16 (unsigned x) { int c = 0; while (x) { c += x & 1; x >>= 1; } return c; }
+static unsigned L16_PAT[2600]; static int n_l16;
+static unsigned L32_PAT[1200]; static int n_l32;
+#define NBITV(k) (4 + 2 * (k))
+static long l16_off[2601], l32_off[1201];
+static void init_mapkeys (void) {
+  for (unsigned p = 0; p < 65536; p++) { int c = popcount16 (p); if (c >= 12 && c <= 15) L16_PAT[n_l16++] = p; }
+  static const int steps[] = { 1, 3, 5, 7, 11 };
+  for (int u = 1; u <= 7; u++) for (int st = 0; st < 32; st++) for (int si = 0; si < 5; si++) {
+    unsigned used = 0xffffffffu;
+    for (int j = 0; j < u; j++) used &= ~(1u << ((st + j * steps[si]) & 31));
+    L32_PAT[n_l32++] = used;
+  }
+  l16_off[0] = 0; for (int i = 0; i < n_l16; i++) l16_off[i + 1] = l16_off[i] + NBITV (popcount16 (L16_PAT[i]));
+  l32_off[0] = 0; for (int i = 0; i < n_l32; i++) l32_off[i + 1] = l32_off[i] + NBITV (popcount16 (L32_PAT[i] & 0xffff) + popcount16 (L32_PAT[i] >> 16));
+}
+static int bit_variant (int v, int j, int k) {        /* does the j-th of k pairs carry the next hash bit in variant v? */
+  if (v == 0) return 0; if (v == 1) return 1; if (v == 2) return !(j & 1); if (v == 3) return j & 1;
+  v -= 4;
+  if (v < k) return j == v;
+  return j != v - k;
+}
+static svalue_t map_of_hashes (const int *h, int n) {
+  svalue_t k[40], v[40];
+  for (int i = 0; i < n; i++) { k[i] = V_int (16LL * h[i]); v[i] = V_int (h[i] + 1); }
+  return V_map (n, k, v);
+}
+#define MK_L8 (65535L * 3)
+#define MK_STR 40
+static long mapkeys_total_values (void) { return MK_L8 + l16_off[n_l16] + l32_off[n_l32] + MK_STR; }
+static svalue_t mapkeys_value (long i, char *what, size_t wl) {
+  int h[40], n = 0;
+  if (i < MK_L8) {
+    int cx = (int) (i % 3); unsigned sub = (unsigned) (i / 3) + 1;
+    for (int b = 0; b < 16; b++) if (sub & (1u << b)) h[n++] = b;
+    svalue_t m = map_of_hashes (h, n), e[2], k[1];
+    snprintf (what, wl, "hashes subset 0x%04x (%d pairs) %s", sub, n, cx == 0 ? "top level" : cx == 1 ? "in an array" : "as a mapping value");
+    if (cx == 0) return m;
+    if (cx == 1) { e[0] = V_int (1); e[1] = m; return V_arr (2, e); }
+    k[0] = V_str ("k"); e[0] = m; return V_map (1, k, e);
+  }
+  i -= MK_L8;
+  if (i < l16_off[n_l16]) {
+    int p = 0; while (i >= l16_off[p + 1]) p++;
+    int v = (int) (i - l16_off[p]), k = popcount16 (L16_PAT[p]);
+    for (int b = 0, j = 0; b < 16; b++) if (L16_PAT[p] & (1u << b)) { h[n++] = b + (bit_variant (v, j, k) ? 16 : 0); j++; }
+    snprintf (what, wl, "16-bucket table: buckets 0x%04x, bit-4 variant %d", L16_PAT[p], v);
+    return map_of_hashes (h, n);
+  }
+  i -= l16_off[n_l16];
+  if (i < l32_off[n_l32]) {
+    int p = 0; while (i >= l32_off[p + 1]) p++;
+    int v = (int) (i - l32_off[p]), k = popcount16 (L32_PAT[p] & 0xffff) + popcount16 (L32_PAT[p] >> 16);
+    for (int b = 0, j = 0; b < 32; b++) if (L32_PAT[p] & (1u << b)) { h[n++] = b + (bit_variant (v, j, k) ? 32 : 0); j++; }
+    snprintf (what, wl, "32-bucket table: buckets 0x%08x, bit-5 variant %d", L32_PAT[p], v);
+    return map_of_hashes (h, n);
+  }
+  i -= l32_off[n_l32];
+  {
+    svalue_t k[40], v[40]; int ns = (int) i + 1;
+    for (int j = 0; j < ns; j++) { char nm[16]; snprintf (nm, sizeof nm, "key%d", j); k[j] = V_str (nm); v[j] = V_int (j + 1); }
+    snprintf (what, wl, "%d string keys", ns);
+    return V_map (ns, k, v);
+  }
+}
+#define MK_BLOCK 128
+static void mapkeys_elem (long blk) {
+  long tot = mapkeys_total_values (), from = blk * MK_BLOCK, to = from + MK_BLOCK;
+  if (to > tot) to = tot;
+  strcpy (ctx_key, "mapping-filling-its-table");
+  for (long i = from; i < to; i++) {
+    char what[120];
+    svalue_t v = mapkeys_value (i, what, sizeof what);
+    snprintf (desc_cur, sizeof desc_cur, "%s: %.300s", what, hx_canon_s (&v));
+    if (i == from) vx_obs ("%s", desc_cur);
+    char *text = roundtrip_variable (&v, 1);
+    at_rest ("save_variable/restore_variable");
+    if ((i & 63) == 0) { roundtrip_object (&v, 0, 1); at_rest ("save_object/restore_object"); }
+    free (text);
+    free_svalue (&v, "c16");
+    vx_count (1, 1);
+  }
+  vx_count (0, 1);
+}
+
+/* ------------------------------------------------------------------ shapes: which variables of an inheritance tree are persistent
+ * All inheritance shapes {chain of 1, 2, 3 links; two parents; diamond} x every link declared with each of
+ * {"", static, private, static private} (4 + 16 + 64 + 16 + 256 = 356 objects); every program declares
+ * int v_X, static int s_X, private int p_X, private static int q_X.  A variable is persistent iff it is not declared
+ * static and no inherit statement on its path from the saved object is static.
+ * Oracle: the save FILE names exactly the persistent variables (one line per persistent occurrence); after setting every
+ * variable to 99 and restore_object() the static ones still hold 99 and the persistent ones (unique names) are back. */
+static const char *IMOD[] = { "", "static ", "private ", "static private " };
+typedef struct { char name[24]; int is_static; } xvar_t;
+static xvar_t XV[64]; static int n_xv;
+static void own_vars (const char *prog, int acc_static) {
+  static const char *kind = "vspq";
+  for (int i = 0; i < 4; i++) {
+    snprintf (XV[n_xv].name, sizeof XV[n_xv].name, "%c_%s", kind[i], prog);
+    XV[n_xv].is_static = acc_static || kind[i] == 's' || kind[i] == 'q';
+    n_xv++;
+  }
+}
+static void prog_text (char *out, size_t n, const char *self, const char *inh1, int m1, const char *inh2, int m2) {
+  size_t k = 0;
+  if (inh1) k += (size_t) snprintf (out + k, n - k, "%sinherit \"%s\";\n", IMOD[m1], inh1);
+  if (inh2) k += (size_t) snprintf (out + k, n - k, "%sinherit \"%s\";\n", IMOD[m2], inh2);
+  snprintf (out + k, n - k, "int v_%s = 11;\nstatic int s_%s = 12;\nprivate int p_%s = 13;\nprivate static int q_%s = 14;\nvoid create() { seteuid(getuid()); }\n", self, self, self, self);
+}
+#define ST(m) ((m) & 1)
+static long shapes_total (void) { return 4 + 16 + 64 + 16 + 256; }
+static void shapes_elem (long idx) {
+  char text[600], desc[200];
+  object_t *top = 0;
+  int m[4] = { 0, 0, 0, 0 }, shape;
+  n_xv = 0;
+  if (idx < 4) { shape = 1; m[0] = (int) idx; }
+  else if ((idx -= 4) < 16) { shape = 2; m[0] = (int) (idx / 4); m[1] = (int) (idx % 4); }
+  else if ((idx -= 16) < 64) { shape = 3; m[0] = (int) (idx / 16); m[1] = (int) (idx / 4 % 4); m[2] = (int) (idx % 4); }
+  else if ((idx -= 64) < 16) { shape = 4; m[0] = (int) (idx / 4); m[1] = (int) (idx % 4); }
+  else { idx -= 16; shape = 5; m[0] = (int) (idx / 64); m[1] = (int) (idx / 16 % 4); m[2] = (int) (idx / 4 % 4); m[3] = (int) (idx % 4); }
+  strcpy (ctx_key, "inheritance-shape");
+  int ok = 1;
+#define LOAD(NAME, I1, M1, I2, M2) do { prog_text (text, sizeof text, NAME, I1, M1, I2, M2); if (ok && !hx_load (NAME ".c", text)) { ok = 0; snprintf (desc_cur, sizeof desc_cur, "cannot compile %s: %.150s", NAME, hx_last_error); } } while (0)
+  switch (shape) {
+  case 1:       /* st -m0-> sb */
+    snprintf (desc, sizeof desc, "st: %sinherit sb", IMOD[m[0]]);
+    LOAD ("sb", 0, 0, 0, 0); LOAD ("st", "sb", m[0], 0, 0);
+    own_vars ("sb", ST (m[0])); own_vars ("st", 0);
+    break;
+  case 2:       /* st -m0-> sm -m1-> sb */
+    snprintf (desc, sizeof desc, "st: %sinherit sm; sm: %sinherit sb", IMOD[m[0]], IMOD[m[1]]);
+    LOAD ("sb", 0, 0, 0, 0); LOAD ("sm", "sb", m[1], 0, 0); LOAD ("st", "sm", m[0], 0, 0);
+    own_vars ("sb", ST (m[0]) | ST (m[1])); own_vars ("sm", ST (m[0])); own_vars ("st", 0);
+    break;
+  case 3:       /* st -m0-> sn -m1-> sm -m2-> sb */
+    snprintf (desc, sizeof desc, "st: %sinherit sn; sn: %sinherit sm; sm: %sinherit sb", IMOD[m[0]], IMOD[m[1]], IMOD[m[2]]);
+    LOAD ("sb", 0, 0, 0, 0); LOAD ("sm", "sb", m[2], 0, 0); LOAD ("sn", "sm", m[1], 0, 0); LOAD ("st", "sn", m[0], 0, 0);
+    own_vars ("sb", ST (m[0]) | ST (m[1]) | ST (m[2])); own_vars ("sm", ST (m[0]) | ST (m[1])); own_vars ("sn", ST (m[0])); own_vars ("st", 0);
+    break;
+  case 4:       /* st -m0-> sb, st -m1-> sc */
+    snprintf (desc, sizeof desc, "st: %sinherit sb; %sinherit sc", IMOD[m[0]], IMOD[m[1]]);
+    LOAD ("sb", 0, 0, 0, 0); LOAD ("sc", 0, 0, 0, 0); LOAD ("st", "sb", m[0], "sc", m[1]);
+    own_vars ("sb", ST (m[0])); own_vars ("sc", ST (m[1])); own_vars ("st", 0);
+    break;
+  default:      /* st -m0-> sl -m2-> sb, st -m1-> sr -m3-> sb */
+    snprintf (desc, sizeof desc, "st: %sinherit sl; %sinherit sr; sl: %sinherit sb; sr: %sinherit sb", IMOD[m[0]], IMOD[m[1]], IMOD[m[2]], IMOD[m[3]]);
+    LOAD ("sb", 0, 0, 0, 0); LOAD ("sl", "sb", m[2], 0, 0); LOAD ("sr", "sb", m[3], 0, 0); LOAD ("st", "sl", m[0], "sr", m[1]);
+    own_vars ("sb", ST (m[0]) | ST (m[2])); own_vars ("sl", ST (m[0])); own_vars ("sb", ST (m[1]) | ST (m[3])); own_vars ("sr", ST (m[1])); own_vars ("st", 0);
+    break;
+  }
+  if (ok) snprintf (desc_cur, sizeof desc_cur, "%s", desc);
+  vx_obs ("%s", desc_cur);
+  if (!ok || !(top = hx_find ("st"))) { fail ("HARNESS-shape-does-not-compile", "%s", hx_last_error); return; }
+  if (top->prog->num_variables_total != n_xv) { fail ("HARNESS-variable-count", "object has %d variables, the shape says %d", top->prog->num_variables_total, n_xv); return; }
+  /* 1. the file */
+  object_t *saveO = O; O = top;
+  unlink ("sh.o");
+  struct so_arg sa = { "sh", 1, -9 };
+  if (hx_guard (so_fn, &sa) || sa.ret != 1) { fail ("save-error", "save_object: %d %s", sa.ret, hx_last_error); O = saveO; return; }
+  size_t flen; char *file = fs_slurp ("sh.o", &flen);
+  int in_file[64]; memset (in_file, 0, sizeof in_file);
+  for (char *l = file ? strtok (file, "\n") : 0; l; l = strtok (0, "\n")) {
+    if (*l == '#') continue;
+    char *sp1 = strchr (l, ' '); if (!sp1) continue;
+    *sp1 = 0;
+    int placed = 0, known = 0;
+    for (int i = 0; i < n_xv && !placed; i++) if (!strcmp (XV[i].name, l)) { known = 1; if (!XV[i].is_static && !in_file[i]) { in_file[i] = 1; placed = 1; } }
+    if (!placed) fail ("static-variable-in-save-file", "the save file has a line for %s, which is %s (file written by save_object of: %s)", l, known ? "static here, by declaration or through a static inherit" : "no variable of the object", desc);
+  }
+  for (int i = 0; i < n_xv; i++) if (!XV[i].is_static && !in_file[i]) fail ("variable-missing-from-save-file", "no line for the persistent variable %s", XV[i].name);
+  free (file);
+  /* 2. the way back */
+  for (int i = 0; i < n_xv; i++) { free_svalue (&top->variables[i], "c16"); top->variables[i] = V_int (99); }
+  struct so_arg ra = { "sh", 0, -9 };
+  if (hx_guard (ro_fn, &ra) || ra.ret != 1) fail ("restore-error", "restore_object: %d %s", ra.ret, hx_last_error);
+  else for (int i = 0; i < n_xv; i++) {
+    svalue_t *q = &top->variables[i];
+    int dup = 0; for (int j = 0; j < n_xv; j++) if (j != i && !strcmp (XV[j].name, XV[i].name)) dup = 1;
+    long want = XV[i].name[0] == 'v' ? 11 : XV[i].name[0] == 's' ? 12 : XV[i].name[0] == 'p' ? 13 : 14;
+    if (XV[i].is_static) { if (!(q->type == T_NUMBER && q->u.number == 99)) fail ("static-variable-touched", "static variable %s (#%d) is %s after restore_object, it held 99", XV[i].name, i, hx_canon_s (q)); }
+    else if (!dup && !(q->type == T_NUMBER && q->u.number == want)) fail ("value-changed", "persistent variable %s came back as %s, saved %ld", XV[i].name, hx_canon_s (q), want);
+  }
+  O = saveO;
+  vx_count (0, 1);
+  vx_count (1, n_xv);
+}
+
 /* ------------------------------------------------------------------ history: what one restore leaves behind for the next
  * Driver booted with MaxArraySize 8 / MaxMappingSize 8 so that a restore can be refused by error() in the middle of a
  * nested container.  All histories of length 2..3 over {restore of each of 9 texts through restore_variable,
@@ -980,6 +1191,8 @@ static void elem_body (long idx) {
   else if (!strcmp (part, "chain")) chain_elem (idx);
   else if (!strcmp (part, "names")) names_elem (idx);
   else if (!strcmp (part, "history")) hist_elem (idx);
+  else if (!strcmp (part, "mapkeys")) mapkeys_elem (idx);
+  else if (!strcmp (part, "shapes")) shapes_elem (idx);
   else if (!strcmp (part, "damage")) damage_elem (idx);
   else if (!strcmp (part, "strings")) strings_elem (idx);
   else if (!strcmp (part, "crash")) { if (idx < crash_total () - NTORN) crash_elem (idx); else torn_elem (idx - (crash_total () - NTORN)); }
@@ -1019,6 +1232,10 @@ static void describe (long idx, char *buf, size_t len) {
     snprintf (buf, len, "restore_svalue/safe_restore_svalue of every string of length %d over %s starting with '%s'", L, SSYMS, pre);
   } else if (!strcmp (part, "chain")) {
     snprintf (buf, len, "%d nested containers of kind %s (limit %d)", CHAIN_N[idx % NCHAIN_N], CHAIN_KIND[idx / NCHAIN_N], MAX_SAVE_SVALUE_DEPTH);
+  } else if (!strcmp (part, "shapes")) {
+    snprintf (buf, len, "inheritance shape #%ld (chain1 0..3, chain2 4..19, chain3 20..83, two parents 84..99, diamond 100..355; modifiers base 4: none, static, private, static private)", idx);
+  } else if (!strcmp (part, "mapkeys")) {
+    snprintf (buf, len, "table-filling mappings #%ld..#%ld", idx * MK_BLOCK, idx * MK_BLOCK + MK_BLOCK - 1);
   } else if (!strcmp (part, "history")) {
     int ops[3], n = hist_decode (idx, ops); char nm[160]; size_t k = 0;
     k += (size_t) snprintf (buf + k, len - k, "MaxArraySize/MaxMappingSize %d; history:", HLIMIT);
@@ -1090,6 +1307,8 @@ int main (int argc, char **argv) {
   else if (!strcmp (part, "chain")) total = NCHAIN_N * 5;
   else if (!strcmp (part, "names")) total = NNAMES * 2;
   else if (!strcmp (part, "history")) { init_hbase (); total = hist_total (); }
+  else if (!strcmp (part, "shapes")) total = shapes_total ();
+  else if (!strcmp (part, "mapkeys")) { init_mapkeys (); total = (mapkeys_total_values () + MK_BLOCK - 1) / MK_BLOCK; }
   else if (!strcmp (part, "damage")) total = damage_total ();
   else if (!strcmp (part, "strings")) total = strings_total ();
   else if (!strcmp (part, "crash")) total = crash_total ();
